@@ -24,7 +24,7 @@ pub const VARIANTS: [&str; 13] = ["CannotHideGlobalVariable", "CannotSetGlobalVa
     "Variable:CannotAssignImmutableVariable"];
 
 /// (variant code of Model/Checker.v `ce_variant`, (row, column), text of UnusedCaptures) from `{:?}`
-fn parse_check_error(dbg: &str) -> (u32, (usize, usize), String) {
+pub fn parse_check_error(dbg: &str) -> (u32, (usize, usize), String) {
     let head: String = dbg.chars().take_while(|c| c.is_alphanumeric()).collect();
     let name = if head == "Variable" {
         let inner: String = dbg["Variable(".len()..].chars().take_while(|c| c.is_alphanumeric()).collect();
@@ -548,6 +548,27 @@ pub fn gen(rng: &mut Rng, n: usize) -> Vec<Case> {
         match make_case(&spec) { Some(c) => { out.push(c); next_rule += 1; }, None => { skipped += 1; if rng.chance(20) { next_rule += 1; } } }
     }
     eprintln!("C06: {} cases, {} candidate files did not parse (skipped), {} programs drawn", out.len(), skipped, tries);
+    out
+}
+
+/// Rule-breaking DSL texts (one injected violation of a checker rule in an accepted generated program): (text, rule).
+/// Input of stream C05r (rendering of load errors); the C06 stream itself draws with `gen`.
+pub fn faulty_texts(rng: &mut Rng, n: usize) -> Vec<(String, String)> {
+    let mut out = Vec::new();
+    let mut tries = 0;
+    let mut next_rule = 0usize;
+    while out.len() < n && tries < n * 40 {
+        tries += 1;
+        let opts = opt_mix(rng);
+        let p = gen_program(rng, &opts);
+        if !accepted(&p.text()) { continue; }
+        let rule = next_rule % RULES.len();
+        let inj = match inject(rng, &p, rule) { Some(i) => i, None => { if rng.chance(20) { next_rule += 1; } continue } };
+        next_rule += 1;
+        if inj.rule.starts_with("benign") { continue; }
+        let q = Program { preamble: inj.preamble, stanzas: inj.stanzas, supplied: vec![] };
+        out.push((q.text(), inj.rule));
+    }
     out
 }
 
